@@ -133,7 +133,7 @@ def checked_mc(ctx, module, cfg, name, expect):
 def nproc_for(jobs):
     """worker processes for a batch: a process costs ~10 CPU-s to start (imports + JIT), a numpy job ~1.5 ms,
     a dask job ~0.3 s."""
-    cost = sum(100 if j.get("backend") == "dask" else 1 for j in jobs)
+    cost = sum(100 if j.get("backend") == "dask" else (len(j["steps"]) if j.get("fn") == "seq" else 1) for j in jobs)
     return max(1, min(12, (cost + 3999) // 4000))
 
 
@@ -167,6 +167,40 @@ class Failures:
             if key in self.ctx.known:
                 # known finding: count every hit (violation() counted per_key of them)
                 self.ctx.known_hits[key] = len(lst)
+
+
+def flatten(results):
+    """results of run_jobs -> list of cases; a sequence job yields one case per step, each carrying the whole sequence
+    (for replay) next to its own step job."""
+    out = []
+    for r in results:
+        if "seq" in r:
+            for k, c in enumerate(r["seq"]):
+                c["job"] = dict(c["job"], seq_job=r["job"], focus=k)
+                out.append(c)
+        else:
+            out.append(r)
+    return out
+
+
+def mutate_codes(rng, codes, W, pool, p_nan=0.35):
+    """an in-place style edit of a flattened raster: a whole row to one id / value, some cells to NaN, some cells to
+    another member of the pool."""
+    codes = list(codes)
+    n = len(codes)
+    op = rng.choice(["row", "nan", "move", "move"])
+    if op == "row":
+        r = rng.randrange(n // W)
+        x = rng.choice(pool)
+        for c in range(W):
+            codes[r * W + c] = x
+    elif op == "nan" and rng.random() < p_nan + 0.5:
+        for i in rng.sample(range(n), max(1, n // 5)):
+            codes[i] = NAN
+    else:
+        for i in rng.sample(range(n), max(1, n // 4)):
+            codes[i] = rng.choice(pool)
+    return codes
 
 
 def check_worker(cases):
